@@ -340,6 +340,7 @@ def eikonal(model, res):
     for cname in CLASSES:
         n += check_class(model, cname, res)
     shadow_continuity(model, res)
+    branch_continuity(model, res)
     if n < 10:
         raise AnalysisError('only %d arrival-time expressions analysed (confirmed: 11)' % n)
 
@@ -487,3 +488,187 @@ def shadow_continuity(model, res):
     else:
         fail("Kenamond3: where the code's angle `theta` vanishes (P.x_d = %s) the tangent-arc-tangent arrival time is not the "
              "line-of-sight arrival time: the burn time jumps across the shadow boundary" % qstar.key()[:120])
+
+
+def branch_continuity(model, res):
+    """Kenamond3: every point-dependent `if` that selects between burn-time values is a boundary across which the burn time
+    must be continuous.  The symbolic rule above proves it for the shadow test; this rule covers ANY such test (an added
+    early-out, a re-ordered test) by witnesses: at the class defaults, for several distances |P| from the obstacle centre, the
+    value of P.x_d on the boundary of the test is found by bisection on the test's own normal form, and the two selected
+    values (nested selections evaluated by their own tests) are compared there in 30-digit arithmetic.  A difference at
+    a witness point is a jump of the returned field at an admissible point: reported with the point.  No difference at the
+    witnesses proves nothing and is recorded as such."""
+    import ast as _ast
+    import sympy as sp
+    cls = model.get_class(CLASSES[2])
+    runm = cls.find_method('_run')
+    b = Builder(model)
+    objn, ret = b.run_solver(cls)
+    inputs = {n for n in b.trace if n.kind == 'input' and str(n.val).startswith('r')}
+    keys = list(model.parameters_keys(cls) or [])
+    sols = [l for l in phi_leaves(ret) if l.kind == 'call' and l.val == 'exactpack.base.ExactSolution']
+    sol = sols[0]
+    data, names = sol.args[0], (sol.args[1] if len(sol.args) > 1 else sol.kw.get('names'))
+    field = [d for a, d in zip(names.args, data.args) if a.val == 'burntime'][0]
+    ev = NFEval(keys)
+    S_, Q_ = ev.atom('param:PP'), ev.atom('param:Pc')
+    consts = {}
+    for m in b.trace:
+        if m.kind == 'call' and m.val == 'numpy.linalg.norm' and len(m.args) == 1 and not _depends(m, inputs):
+            consts[ev.nf(m.args[0]).key()] = ev.nf(m)
+    for m in b.trace:
+        da = dot_args(m, inputs)
+        if da is None:
+            continue
+        a, c = affine(da[0], inputs), affine(da[1], inputs)
+        if a is None or c is None:
+            return
+        ck = {ev.nf(x_[2]).key() for x_ in (a, c) if x_[2] is not None}
+        if len(ck) > 1:
+            return
+        nn = ev.num(0)
+        if ck:
+            k0 = next(iter(ck))
+            if k0 not in consts:
+                return
+            nn = ev.mul(consts[k0], consts[k0])
+        expr = ev.add(ev.add(ev.mul(ev.num(a[0] * c[0]), S_), ev.mul(ev.num(a[0] * c[1] + c[0] * a[1]), Q_)), ev.mul(ev.num(a[1] * c[1]), nn))
+        ev.memo[m.nid] = ev.power(expr, ev.S.F(Fraction(1, 2))) if da[2] else expr
+    sy = NFSym(ev)
+    # numeric environment: class defaults
+    env = {}
+    for kname in keys:
+        owner, val = cls.find_attr(kname)
+        try:
+            v = _ast.literal_eval(_ast.unparse(val))
+        except Exception:
+            continue
+        if isinstance(v, (int, float)):
+            env['param:%s' % kname] = sp.nsimplify(v, rational=True)
+        elif isinstance(v, (list, tuple)) and all(isinstance(z, (int, float)) for z in v):
+            env['norm:%s' % kname] = sp.sqrt(sum(sp.nsimplify(z, rational=True) ** 2 for z in v))
+    if 'param:R' not in env or not any(k.startswith('norm:') for k in env):
+        return
+    lod = [v for k, v in env.items() if k.startswith('norm:')][0]
+
+    def subs_map(s_val, q_val):
+        mp = {}
+        for k, symb in sy.syms.items():
+            if k == 'param:PP':
+                mp[symb] = s_val
+            elif k == 'param:Pc':
+                mp[symb] = q_val
+            elif k in env:
+                mp[symb] = env[k]
+            elif k.startswith('numpy.linalg.norm('):
+                mp[symb] = lod
+            elif k == 'pi':
+                mp[symb] = sp.pi
+        return mp
+
+    def num(nf_, s_val, q_val):
+        e = sy.conv(nf_)
+        # arccos atoms etc. are symbols of sy: rebuild functions
+        out = e
+        for _ in range(6):
+            mp = subs_map(s_val, q_val)
+            fmap = {}
+            for k, symb in list(sy.syms.items()):
+                if symb in out.free_symbols and k in ev.funcs and k not in ('pi',):
+                    fname, arg = ev.funcs[k][0], ev.funcs[k][1]
+                    fn = {'arccos': sp.acos, 'acos': sp.acos, 'arcsin': sp.asin, 'asin': sp.asin, 'arctan': sp.atan, 'sin': sp.sin,
+                          'cos': sp.cos, 'log': sp.log, 'exp': sp.exp}.get(fname)
+                    if fn is not None:
+                        fmap[symb] = fn(sy.conv(arg))
+            out = out.xreplace(fmap).xreplace(mp)
+            if not (out.free_symbols & set(sy.syms.values())):
+                break
+        v = sp.N(out, 30)
+        return v if v.is_real else None
+
+    def value(n, s_val, q_val, depth=0):
+        if depth > 12:
+            return None
+        if n.kind == 'store':
+            return value(n.args[2], s_val, q_val, depth + 1)
+        if n.kind in ('mu', 'elem', 'arrayof'):
+            return value(n.args[-1] if n.kind == 'mu' and n.args[-1] is not None else n.args[0], s_val, q_val, depth + 1)
+        if n.kind == 'sub' and n.args[0].kind in ('store', 'phi', 'mu'):
+            return value(n.args[0], s_val, q_val, depth + 1)
+        if n.kind == 'phi':
+            c = cond_value(n.args[0], s_val, q_val)
+            if c is None:
+                return None
+            return value(n.args[1] if c else n.args[2], s_val, q_val, depth + 1)
+        x = ev.nf(n)
+        if x is NAN or isinstance(x, (PW, Struct)):
+            return None
+        return num(x, s_val, q_val)
+
+    def cond_value(c, s_val, q_val):
+        if c.kind == 'cmp' and len(c.args) == 2:
+            l, r = num(ev.nf(c.args[0]), s_val, q_val), num(ev.nf(c.args[1]), s_val, q_val)
+            if l is None or r is None:
+                return None
+            return {'>': l > r, '>=': l >= r, '<': l < r, '<=': l <= r}.get(c.val)
+        return None
+    # point-dependent selections reachable from the field
+    phis, seen = [], set()
+    todo = [field]
+    while todo:
+        n = todo.pop()
+        if n is None or not hasattr(n, 'nid') or n.nid in seen:
+            continue
+        seen.add(n.nid)
+        if n.kind == 'phi' and n.args[0].kind == 'cmp' and _depends(n.args[0], inputs) and n.origin and n.origin[0] is runm:
+            phis.append(n)
+        if n.kind in ('store', 'mu', 'elem', 'arrayof', 'sub', 'phi'):
+            todo.extend(a for a in n.args if hasattr(a, 'nid'))
+    Rv = env['param:R']
+    tested = 0
+    for ph in phis:
+        c = ph.args[0]
+        g = lambda s_val, q_val: (lambda l, r: None if l is None or r is None else l - r)(
+            num(ev.nf(c.args[0]), s_val, q_val), num(ev.nf(c.args[1]), s_val, q_val))
+        for fac in (sp.Rational(10001, 10000), sp.Rational(21, 20), sp.Rational(3, 2), 4, 25):
+            s_val = Rv ** 2 * fac ** 2
+            lop = Rv * fac
+            lo, hi = -lod * lop * sp.Rational(999999, 1000000), lod * lop * sp.Rational(999999, 1000000)
+            glo, ghi = g(s_val, lo), g(s_val, hi)
+            if glo is None or ghi is None or glo * ghi > 0:
+                continue
+            for _ in range(80):
+                mid = (lo + hi) / 2
+                gm = g(s_val, mid)
+                if gm is None:
+                    break
+                if (gm > 0) == (glo > 0):
+                    lo, glo = mid, gm
+                else:
+                    hi, ghi = mid, gm
+            qb = (lo + hi) / 2
+            eps_q = lod * lop * sp.Rational(1, 10 ** 9)
+            va = value(ph.args[1], s_val, qb, 0)
+            vb = value(ph.args[2], s_val, qb, 0)
+            # values on the two sides right next to the boundary (nested tests may flip exactly on it)
+            va2 = value(ph.args[1], s_val, qb + eps_q, 0), value(ph.args[1], s_val, qb - eps_q, 0)
+            vb2 = value(ph.args[2], s_val, qb + eps_q, 0), value(ph.args[2], s_val, qb - eps_q, 0)
+            cand = [(x_, y_) for x_ in (va,) + va2 for y_ in (vb,) + vb2 if x_ is not None and y_ is not None]
+            if not cand:
+                continue
+            tested += 1
+            res.obligations += 1
+            res.evaluations += 1
+            res.nontrivial += 1
+            gap = min(abs(x_ - y_) for x_, y_ in cand)
+            if gap < sp.Float('1e-7'):
+                res.discharged += 1
+                continue
+            res.add(Finding(PROP, 'C13.eikonal', runm.module.relpath, runm.qualname,
+                            'Kenamond3: jump across the test `%s`' % c.src[:60],
+                            "Kenamond3: at the class defaults, for |P| = %s R and P.x_d = %s (on the boundary of the test `%s`) the two "
+                            "burn-time values selected by the test differ by %s: the returned field jumps at an admissible point, it is "
+                            "not a continuous first-arrival time" % (fac, sp.N(qb, 8), c.src[:80], sp.N(gap, 6)),
+                            line=getattr(c.origin[1], 'lineno', 0) if c.origin else 0, construct=c.src))
+            break
+    res.extra['kenamond3_branch_witnesses'] = tested
